@@ -245,7 +245,10 @@ fn cli_strat(_: &Ctx) -> BoxedStrategy<CliCase> {
         .prop_map(|(group, shape, potential, replications, steps, inner_steps, kt_start, kt_finish, kt_ratio, (max_step_size, convergence, bad_outdir, block_svg))| {
             // keep the default 100 replications out of the grammar: always pass a count unless testing the parser
             let replications = replications.or(Some(2));
-            CliCase { args: CliArgs { group, shape, potential, replications, steps, inner_steps, kt_start, kt_finish, kt_ratio, max_step_size, convergence }, bad_outdir, block_svg }
+            // the remaining rarely used options are derived from the seed-like step value so that the tuple stays small
+            let verbosity = match (steps.unwrap_or(3) + replications.unwrap_or(0)) % 5 { 0 => 1, 1 => 3, _ => 0 } as u8;
+            let start_config = if inner_steps == Some(3) { Some("/nonexistent/start.json".to_string()) } else if inner_steps == Some(1) { Some("/dev/null".to_string()) } else { None };
+            CliCase { args: CliArgs { group, shape, potential, replications, steps, inner_steps, kt_start, kt_finish, kt_ratio, max_step_size, convergence, verbosity, start_config }, bad_outdir, block_svg }
         })
         .boxed()
 }
